@@ -5,6 +5,7 @@ import RasnModel.Link.Values
 import RasnModel.Gen.Values
 import RasnModel.Gen.Names
 import RasnModel.Ts.Strings
+import RasnModel.Lexer.Lines
 /- line-protocol handler for C07 -/
 namespace Driver.C07
 open Sexp Lexer.Values
@@ -57,6 +58,11 @@ partial def read : Sexp → Option (AbsVal × Option AbsVal)
   | .list [.atom "cstring", s] => (asText s).map fun v =>
       -- the harness writes `escape v` between quotes; the model unescapes what the lexer scanned
       (.str v, some (.str (String.ofList (unescape (Spec.Values.escape v.toList)))))
+  | .list [.atom "cstringml", s, raw] => do
+      -- `raw`: the text between the outer quotes as written (over several lines); the model unescapes and joins the lines
+      let v ← asText s
+      let r ← asText raw
+      pure (.str v, some (.str (String.ofList (Lexer.Lines.joinLines (unescape r.toList)))))
   | .list [.atom "bstr", d, .atom target] => (asText d).map fun d =>
       let spec := Spec.Values.bstringBits d.toList
       let model := bitStringValue 'B' d.toList
